@@ -237,7 +237,7 @@ class FilterResult:
 
 
 def ekf(*, field, q, grid, mean0, std0, base_scale, lin="ts0", structure="dense", damp=0.0,
-        calib="none", correction=True, constraint_init=False, relin=False, observe=None):
+        calib="none", correction=True, constraint_init=False, relin=False, observe=None, transition=None):
     """Textbook extended Kalman filter on a grid. All inputs floats (converted exactly).
 
     Returns a FilterResult with per-time means/covs (calibrated as the library documents),
@@ -245,6 +245,9 @@ def ekf(*, field, q, grid, mean0, std0, base_scale, lin="ts0", structure="dense"
     """
     d, m = field.d, field.m
     n = (q + 1) * d
+    if transition is None:
+        def transition(h):
+            return iwp(q, d, h, base_scale)
     mean = M(mean0)
     P = zeros(n, n)
     s0 = M(std0)
@@ -283,7 +286,7 @@ def ekf(*, field, q, grid, mean0, std0, base_scale, lin="ts0", structure="dense"
     while j < len(ts) - 1:
         kk = next(i for i in range(j + 1, len(ts)) if observe[i])
         # one solver step from ts[j] to ts[kk]; points in between are interpolation targets (no data there)
-        A_full, Q_full = iwp(q, d, ts[kk] - ts[j], base_scale)
+        A_full, Q_full = transition(ts[kk] - ts[j])
         mp_ = A_full @ mean
         H, b = linearize_ode(field, mp_, ts[kk], q, lin, structure)
         z = H @ mp_ + b
@@ -296,7 +299,7 @@ def ekf(*, field, q, grid, mean0, std0, base_scale, lin="ts0", structure="dense"
             e = None
         m_run, P_run = mean, P
         for i in range(j + 1, kk + 1):
-            A, Q = iwp(q, d, ts[i] - ts[i - 1], base_scale)
+            A, Q = transition(ts[i] - ts[i - 1])
             Qs = _scale_cov(Q, e, q, d, structure) if calib == "dynamic" else Q
             m_run = A @ m_run
             P_run = A @ P_run @ A.T + Qs
